@@ -148,6 +148,25 @@ def check_keys(R, U):
             if io != mod:
                 R.mismatch(what, {"keys": repr(l)}, repr(io), repr(mod))
     R.traces += 2 * len(lst_cases)
+    # unravel_keys(*keys): natively the ONE-argument alias of unravel_key, under compile a tuple of unravelled keys (D1804)
+    def pyval(v):
+        return ["str", v] if isinstance(v, str) else (["tup"] + [pyval(x) for x in v] if isinstance(v, tuple) else repr(v))
+    ucases = [[k] for k in trees(1)] + [[rand_tree(rng, 2)] for _ in range(200 if R.quick else 3000)] + lst_cases[:100]
+    m = run_model([sx([Sym(c)] + [key_sx(k) for k in l]) for l in ucases for c in ("unravel-keys-cpp", "unravel-keys-py")])
+    for i, l in enumerate(ucases):
+        nat = call(U.unravel_keys, *l)
+        with forced_compile(U):
+            py = call(U.unravel_keys, *l)
+        R.case(("unravel_keys", repr(l)), nontrivial=len(l) > 0)
+        R.count("unravel_keys:arity-1" if len(l) == 1 else "unravel_keys:other-arity")
+        if not ((nat[0] == py[0]) and (nat[0] == "raise" or nat[1] == py[1])):
+            R.oracle_fail("helpers:native-vs-python", {"helper": "unravel_keys", "keys": repr(l)},
+                          {"native": repr(nat), "python_branch": repr(py)}, {"helper": "unravel_keys", "defect": "native-alias-of-unravel_key"})
+        for impl, mod, what in ((nat, m[2 * i], "unravel-keys-cpp"), (py, m[2 * i + 1], "unravel-keys-py")):
+            io = pyval(impl[1]) if impl[0] == "ok" else "raise"
+            if io != mod:
+                R.mismatch(what, {"keys": repr(l)}, repr(io), repr(mod))
+    R.traces += 2 * len(ucases)
 
 
 # ------------------------------------------------------------------ slices
@@ -185,30 +204,34 @@ def check_slices(R, U):
 
 
 # ------------------------------------------------------------------ _getitem_batch_size: compile branch vs eager branch
-def check_gbs_dual(R, torch, U):
+def check_gbs_dual(R, torch, U, with_model=True):
     """the use site of the slice helper: _getitem_batch_size takes len(range(*_slice_indices(..))) when compiling and
-    len(range(*slice.indices(..))) otherwise; both branches on the whole slice grid and on generated index tuples"""
+    len(range(*slice.indices(..))) otherwise; both branches on the whole slice grid (compared with each other, with CPython
+    and with Model/C18_Gbs.v) and on generated index tuples"""
     from . import c03
     vals = [None] + list(range(-4, 5))
     n_cases = 0
-    for n in range(0, 6):
-        for a in vals:
-            for b in vals:
-                for c in vals:
-                    if c == 0:
-                        continue
-                    idx = (slice(a, b, c),)
-                    eager = call(U._getitem_batch_size, torch.Size([n, 2]), idx)
-                    with forced_compile(U):
-                        comp = call(U._getitem_batch_size, torch.Size([n, 2]), idx)
-                    n_cases += 1
-                    eo = list(eager[1]) if eager[0] == "ok" else "raise"
-                    co = list(comp[1]) if comp[0] == "ok" else "raise"
-                    want = [len(range(*slice(a, b, c).indices(n))), 2]
-                    if eo != co or eo != want:
-                        R.oracle_fail("helpers:native-vs-python", {"helper": "_getitem_batch_size", "slice": [a, b, c], "len": n},
-                                      {"eager": eo, "compile_branch": co, "len(range(slice.indices))": want},
-                                      {"helper": "_getitem_batch_size"})
+    grid = [(a, b, c, n) for n in range(0, 6) for a in vals for b in vals for c in vals]
+    mod = None
+    if with_model:
+        mod = run_model([sx([Sym("gbs-dim"), comp, some(a), some(b), some(c), n]) for (a, b, c, n) in grid for comp in (True, False)])
+    for gi, (a, b, c, n) in enumerate(grid):
+        idx = (slice(a, b, c),)
+        eager = call(U._getitem_batch_size, torch.Size([n, 2]), idx)
+        with forced_compile(U):
+            comp = call(U._getitem_batch_size, torch.Size([n, 2]), idx)
+        n_cases += 1
+        eo = list(eager[1]) if eager[0] == "ok" else "raise"
+        co = list(comp[1]) if comp[0] == "ok" else "raise"
+        if mod is not None:
+            for what, io, mo in (("gbs-dim:compile", co, mod[2 * gi]), ("gbs-dim:eager", eo, mod[2 * gi + 1])):
+                if (io if io == "raise" else io[0]) != mo:
+                    R.mismatch(what, {"slice": [a, b, c], "len": n}, repr(io), repr(mo))
+        want = [len(range(*slice(a, b, c).indices(n))), 2] if c != 0 else "raise"
+        if eo != co or eo != want:
+            R.oracle_fail("helpers:native-vs-python", {"helper": "_getitem_batch_size", "slice": [a, b, c], "len": n},
+                          {"eager": eo, "compile_branch": co, "len(range(slice.indices))": want},
+                          {"helper": "_getitem_batch_size"})
     R.case(("gbs-slices", n_cases), nontrivial=True)
     R.count("gbs_dual:slice-grid", n_cases)
     m = 1500 if R.quick else 30000
@@ -349,6 +372,150 @@ def check_programs(R, torch):
         R.traces += 1
 
 
+# ------------------------------------------------------------------ programs: forced-branch differential (no dynamo)
+def _first_divergence(F, shape, names, prog):
+    """shortest prefix on which the two forced runs differ -> (prefix length, eager obs, compile obs)"""
+    for n in range(1, len(prog) + 1):
+        e, c = F.run_both(shape, names, prog[:n])
+        if e != c:
+            return n, e, c
+    return None
+
+
+def _strided_contiguous_leaf(F, shape, names, prefix):
+    """pattern of finding D1803: some leaf is_contiguous() although its last stride is not 1 (size-1 / empty strided dim)"""
+    try:
+        with F.Forced(False, count=False):
+            x = F.run_program(F.base_td(shape, names), prefix)
+        return any(v.is_contiguous() and len(v.stride()) > 0 and v.stride()[-1] != 1 for v in x.values(True, True))
+    except Exception:  # noqa: BLE001
+        return False
+
+
+def check_forced_programs(R, torch):
+    from . import c18_forced as F
+    rng = R.rng
+    nprog = 500 if R.quick else 25000
+    shapes = [(2, 3), (3,), (2, 1, 3), (1, 2), (4, 2), (1,), (2, 2, 2)]
+    F.HITS.clear()
+    ndiv = 0
+    for i in range(nprog):
+        shape = rng.choice(shapes)
+        names = F.rand_names(rng, len(shape)) if rng.random() < 0.4 else None
+        length = rng.randrange(2, 7)
+        with F.Forced(False, count=False):
+            base = call(F.base_td, shape, names)
+            if base[0] != "ok":                    # the code under test refuses a valid named input: an observation, not a crash
+                R.count("forced-prog:setup-raises:" + str(base[1]))
+                continue
+            prog = F.gen_program(rng, base[1], length)
+        eager, comp = F.run_both(shape, names, prog)
+        R.case(("forced-prog", shape, names, repr(prog)), nontrivial=len(prog) >= 2,
+               sample={"forced_branch_program": [[n, list(map(repr, a))] for n, a in prog], "shape": list(shape), "names": names} if i % 97 == 0 else None)
+        for name, _ in prog:
+            R.count("forced-op:" + name)
+        R.count("forced-prog:named-input" if names is not None and any(n is not None for n in names) else "forced-prog:unnamed-input")
+        R.traces += 1
+        if eager == comp:
+            continue
+        ndiv += 1
+        n, e, c = _first_divergence(F, shape, names, prog)
+        kind = F.divergence_kind(e, c)
+        op = prog[n - 1][0]
+        sig = {"check": "forced-branch", "kind": kind}
+        if kind == "names-only":
+            sig["defect"] = "compile-drops-names"                    # D1801
+        elif kind == "compile-branch-raises:TypeError" and op == "to_dtype_pos":
+            sig["defect"] = "positional-dtype-or-tensor"             # D1802
+        elif kind == "compile-branch-raises:RuntimeError" and op == "consolidate" and _strided_contiguous_leaf(F, shape, names, prog[:n - 1]):
+            sig["defect"] = "consolidate-contiguous-with-last-stride-not-1"   # D1803
+        else:
+            sig["first_diverging_op"] = op
+        R.oracle_fail("programs:forced-branch", {"shape": list(shape), "names": names, "program": [[nm, list(a)] for nm, a in prog[:n]], "forced": True},
+                      {"first_diverging_op": op, "eager": e, "compile_branch": c}, sig)
+    R.extra["forced_branch_programs"] = nprog
+    R.extra["forced_branch_divergent"] = ndiv
+    return dict(F.HITS)
+
+
+def site_evidence(R, tr, hits):
+    """which sites the forced run exercised (per branch), and the classification summary read back from the Coq table"""
+    import os
+    import re
+    from .core import COQ
+    txt = open(os.path.join(COQ, "Model", "C18_Sites.v")).read()
+    cls = {(a, b): c for a, b, c in re.findall(r'\(\("([^"]+)", "([^"]+)"\), (\w+)\)', txt)}
+    per = {}
+    for (f, q, v), n in hits.items():
+        per.setdefault((f, q), {})[v] = n
+    recs = {(m.rel, m.qual): m for m in tr["records"]} if tr else {}
+    for (f, q) in sorted(set(recs) | set(per)):
+        for v in (True, False):
+            n = per.get((f, q), {}).get(v, 0)
+            if n:
+                R.count(f"site-hit[{'compile' if v else 'eager'}]:{f}:{q}", n)
+    reached = sorted(k for k in recs if per.get(k, {}).get(True) and recs[k].origin == "call")
+    call_sites = sorted(k for k in recs if recs[k].origin == "call")
+    by = {}
+    for k in recs:
+        by.setdefault(cls.get(k, "UNCLASSIFIED"), []).append(f"{k[0]}:{k[1]}")
+    R.extra["sites"] = {
+        "call_sites": len(call_sites), "param_sites": len(recs) - len(call_sites),
+        "exercised_on_compile_branch_by_forced_programs": len(reached),
+        "not_exercised": [f"{a}:{b}" for a, b in call_sites if (a, b) not in reached],
+        "guard_checked": sorted(by.get("Guard", [])), "dual_modelled": sorted(by.get("DualModelled", [])),
+        "dual_unmodelled": sorted(by.get("DualUnmodelled", [])), "unclassified": sorted(by.get("UNCLASSIFIED", [])),
+        "shapes": {f"{m.rel}:{m.qual}": m.shapes for m in tr["records"]} if tr else {},
+    }
+    unknown = sorted(k for k in per if k not in recs)
+    if unknown:
+        R.broken.append("is_compiling() asked by a function the translator does not list as a site: " + repr(unknown[:5]))
+
+
+def check_programs_named(R, torch):
+    """eager vs torch.compile on programs that use dimension names and the other C18-local operations; the observation
+    includes the names (finding D1801 is visible under real dynamo, not only with the forced flag)"""
+    from . import c18_forced as F
+    import torch._dynamo
+    rng = R.rng
+    nprog = 12 if R.quick else 300
+    shapes = [(2, 3), (3,), (2, 1, 3), (4, 2)]
+    allowed = {"refine_names", "names_set", "construct_named", "to_dtype_kw", "to_device", "flat_unflat", "mul_td", "add_td_inplace"}
+    done = 0
+    tries = 0
+    while done < nprog and tries < 20 * nprog:
+        tries += 1
+        shape = rng.choice(shapes)
+        names = F.rand_names(rng, len(shape)) if rng.random() < 0.6 else None
+        base = call(F.base_td, shape, names)
+        if base[0] != "ok":
+            R.count("prog-named:setup-raises:" + str(base[1]))
+            continue
+        prog = [p for p in F.gen_program(rng, base[1], rng.randrange(2, 5)) if p[0] in allowed or p[0] in F.progs.OPS]
+        if not any(p[0] in allowed for p in prog):
+            continue
+        eager = call(lambda: F.observe(F.run_program(F.base_td(shape, names), prog)))
+        if eager[0] != "ok":
+            continue
+        done += 1
+
+        def f(x, _prog=tuple(prog)):
+            return F.run_program(x, _prog)
+        torch._dynamo.reset()
+        comp = call(lambda: F.observe(torch.compile(f, backend="eager")(F.base_td(shape, names))))
+        R.case(("prog-named", shape, names, repr(prog)), nontrivial=True)
+        R.count("prog-named")
+        R.extra["programs"] = R.extra.get("programs", 0) + 1
+        R.traces += 1
+        if comp != eager:
+            kind = F.divergence_kind(eager, comp if comp[0] == "ok" else ("raise", comp[1]))
+            sig = {"kind": "program", "first_op": prog[0][0]}
+            if kind == "names-only":
+                sig = {"kind": "program", "defect": "compile-drops-names"}
+            R.oracle_fail("programs:eager-vs-compile", {"shape": list(shape), "names": names, "program": [[n, list(a)] for n, a in prog], "named_ops": True},
+                          {"eager": eager[1], "compiled": comp[1] if comp[0] == "ok" else "raise " + str(comp[1])}, sig)
+
+
 def main(R):
     R.rule = ("helpers: exhaustive grids (key trees over {'a','b',1} to depth 1 (quick) / 2 (thorough) + random depth-3 trees; "
               "slices start/stop/step in -4..4|None x len 0..5; all batch_size spellings; random key-aligned lists); "
@@ -356,26 +523,43 @@ def main(R):
               "input and non-trivial when the key is a tuple / the program has >= 2 ops / the td has > 1 leaf")
     R.assumptions = ["torch.compile(backend='eager'|'aot_eager') stands for compiled execution (inductor not exercised)",
                      "the compile-only helper branches are executed eagerly by patching the module-global is_compiling",
-                     "dynamo's tracing is not modelled: program equivalence is established by this run only (partial)"]
-    R.trusted = ["Spec/PySlice validated against CPython slice.indices on the same grid in this run",
+                     "dynamo's tracing is not modelled: program equivalence is established by this run only (partial)",
+                     "Guard sites: the bookkeeping allow-list of Model/C18_SiteShape.v (lock-graph weakrefs, warnings, memo stores, "
+                     "error-message / lock context managers, functools.wraps) is reviewed by hand; what is CHECKED is that nothing else differs",
+                     "memo / @cache duals hold under table coherence (class attributes not rebound after memoisation; cache invalidation is C06's theorem)",
+                     "names model: renaming of nested tensordicts (_rename_subtds) not modelled"]
+    R.trusted = ["harness/tr_c18.py partial evaluator + normaliser (identity comprehension == constructor call; annotated == plain assignment)",
+                 "Spec/PySlice validated against CPython slice.indices on the same grid in this run",
                  "harness/cext.py: g++ rebuild of tensordict/csrc from the working tree, loaded as tensordict._C"]
-    from . import translate, tr_c18  # noqa: F401
+    from . import translate, tr_c18, c18_dual  # noqa: F401
+    tr = None
     try:
-        translate.run("c18_sites")
+        tr = translate.run("c18_sites")
     except translate.TranslateError as e:
         R.broken.append(f"translator c18_sites: {e}")
     R.step_prove()
     ok = R.step_driver()
     torch, tensordict, U, TDM, B = _imports()
     torch.set_num_threads(1)
+    import warnings
+    warnings.simplefilter("ignore")
     spec_bad = 0
     if ok:
         check_keys(R, U)
         spec_bad = check_slices(R, U)
         check_parse_bs(R, torch, tensordict, TDM)
-    check_gbs_dual(R, torch, U)
+        c18_dual.check_names(R, torch, tensordict)
+        c18_dual.check_memo(R, torch, tensordict)
+        c18_dual.check_seq_keys(R)
+    check_gbs_dual(R, torch, U, with_model=ok)
     check_items_list(R, torch, tensordict, B)
+    c18_dual.check_cache(R, torch, tensordict)
+    c18_dual.check_parse_to(R, torch, U)
+    c18_dual.check_consolidate(R, torch, tensordict)
+    hits = check_forced_programs(R, torch)
+    site_evidence(R, tr, hits)
     check_programs(R, torch)
+    check_programs_named(R, torch)
     if spec_bad:
         raise RuntimeError(f"{spec_bad} SPEC-MISMATCH lines: Spec/PySlice disagrees with CPython (machinery bug)")
 
@@ -384,6 +568,9 @@ def replay(body):
     torch, tensordict, U, TDM, B = _imports()
     case = body.get("case", {})
     print(json.dumps(body.get("detail"), indent=1, default=str))
+    from . import c18_dual
+    if c18_dual.replay(case):
+        return 0
     if case.get("helper") == "_slice_indices":
         a, b, c = case["slice"]
         sl = slice(a, b, c)
@@ -396,6 +583,19 @@ def replay(body):
         with forced_compile(U):
             py = call(f, k)
         print("native:", nat, " python branch:", py)
+    elif "program" in case and (case.get("forced") or case.get("named_ops")):
+        from . import c18_forced as F
+        prog = [(n, tuple(tuple(x) if isinstance(x, list) else x for x in a)) for n, a in case["program"]]
+        shape, names = tuple(case["shape"]), case.get("names")
+        names = tuple(names) if names is not None else None
+        if case.get("forced"):
+            e, c = F.run_both(shape, names, prog)
+            print("is_compiling forced False:", e)
+            print("is_compiling forced True :", c)
+        else:
+            print("eager:", call(lambda: F.observe(F.run_program(F.base_td(shape, names), prog))))
+            cf = torch.compile(lambda x: F.run_program(x, prog), backend="eager")
+            print("compiled:", call(lambda: F.observe(cf(F.base_td(shape, names)))))
     elif "program" in case:
         from . import progs
         prog = [(n, tuple(tuple(x) if isinstance(x, list) else x for x in a)) for n, a in case["program"]]
